@@ -35,6 +35,7 @@ type EvalCtx struct {
 	lookupAddr func(name string) (*PtrV, bool) // address of a local variable kept in memory (loop contexts)
 	lookupOuter func(name string) (EV, bool)   // the enclosing loop's variable of that name
 	prove  bool // true: goal position (forall skolemised); false: assumption (real quantifier)
+	replay bool // re-evaluation on values hydrated from a real run: identities of objects/functions are not available
 	bvars  []*Term // bound variables of the enclosing real quantifiers (skolem terms must depend on them)
 	depth  int
 }
@@ -704,6 +705,12 @@ func (c *EvalCtx) equal(a, b EV, e *Expr) *Term {
 	if b.Const != nil {
 		b = c.coerceConst(b, a.T)
 	}
+	if c.replay {
+		switch a.V.(type) {
+		case *PtrV, *IfaceV, *FuncV, *SliceV:
+			specFail("identity comparison %s cannot be re-evaluated on replayed values", e)
+		}
+	}
 	switch av := a.V.(type) {
 	case *Term:
 		bt := c.term(b, e.String())
@@ -832,6 +839,9 @@ func (c *EvalCtx) call(e *Expr) EV {
 			}
 			return nc.Eval(args[0])
 		case "snap":
+			if c.replay {
+				specFail("snap cannot be re-evaluated on replayed values")
+			}
 			// snap(e, *T, field): field of the object behind interface/pointer e as recorded when it first became an interface value
 			a := c.Eval(args[0])
 			var id *Term
@@ -907,6 +917,9 @@ func (c *EvalCtx) call(e *Expr) EV {
 		case "dyntype":
 			a := c.Eval(args[0])
 			iv, ok := a.V.(*IfaceV)
+			if ok && c.replay && iv.Dyn == nil && !(iv.Tag.IsConst() && iv.Tag.val.Sign() == 0) {
+				specFail("dynamic type of a replayed value of an unnamed/foreign type is not available")
+			}
 			if !ok {
 				specFail("dyntype of non-interface")
 			}
@@ -965,6 +978,9 @@ func (c *EvalCtx) call(e *Expr) EV {
 			}
 			specFail("nilish of %T", a.V)
 		case "implements":
+			if c.replay {
+				specFail("implements cannot be re-evaluated on replayed values")
+			}
 			// implements(x, I): the dynamic type of interface value x implements interface I
 			a := c.Eval(args[0])
 			iv, ok := a.V.(*IfaceV)
@@ -980,6 +996,9 @@ func (c *EvalCtx) call(e *Expr) EV {
 			a := c.Eval(args[0])
 			return EV{V: c.equal(a, EV{IsNil: true}, e), T: tBool}
 		case "fresh":
+			if c.replay {
+				specFail("fresh cannot be re-evaluated on replayed values")
+			}
 			// fresh(s): the slice's backing object was allocated during this call
 			a := c.Eval(args[0])
 			switch v := a.V.(type) {
@@ -990,9 +1009,15 @@ func (c *EvalCtx) call(e *Expr) EV {
 			}
 			specFail("fresh of %T", a.V)
 		case "sameobj":
+			if c.replay {
+				specFail("sameobj cannot be re-evaluated on replayed values")
+			}
 			a, b := c.Eval(args[0]), c.Eval(args[1])
 			return EV{V: tb.Bool(objOf(a.V) == objOf(b.V)), T: tBool}
 		case "aliases":
+			if c.replay {
+				specFail("aliases cannot be re-evaluated on replayed values")
+			}
 			// aliases(s, t, lo, hi): s is exactly t[lo:hi]
 			a, b := c.Eval(args[0]), c.Eval(args[1])
 			as, ok1 := a.V.(*SliceV)
@@ -1012,8 +1037,23 @@ func (c *EvalCtx) call(e *Expr) EV {
 				specFail("crc16 needs a slice")
 			}
 			n := c.toIndex(c.Eval(args[1]))
+			if c.replay {
+				// concrete re-evaluation: fold the definition over the actual bytes
+				if !n.IsConst() || n.val.Sign() < 0 || n.val.Int64() > 4096 || sv.Obj.Dummy {
+					specFail("crc16 over a non-concrete length cannot be re-evaluated on replayed values")
+				}
+				cur := tb.BVi(16, 0xFFFF)
+				cont := x.objState(c.st, sv.Obj).Leaves[""]
+				for i := int64(0); i < n.val.Int64(); i++ {
+					cur = x.crcStep(cur, x.Select(cont, tb.BVBin("bvadd", sv.Off, tb.BVi(64, i))))
+				}
+				return EV{V: cur, T: types.Typ[types.Uint16]}
+			}
 			return EV{V: x.crcTerm(c.st, sv, n), T: types.Typ[types.Uint16]}
 		case "errIs":
+			if c.replay {
+				specFail("errIs cannot be re-evaluated on replayed values")
+			}
 			a, b := c.Eval(args[0]), c.Eval(args[1])
 			return EV{V: x.errIs(a.V.(*IfaceV), b.V.(*IfaceV)), T: tBool}
 		case "event":
